@@ -617,6 +617,10 @@ class RelativeJSONPointer:
             parts.extend(self.pointer.parts)
         else:
             assert self.pointer == "#"
+            if not parts:
+                raise RelativeJSONPointerIndexError(
+                    "the root has no key or index to point to"
+                )
             parts[-1] = f"#{parts[-1]}"
 
         return JSONPointer.from_parts(
